@@ -139,6 +139,11 @@ def strategy():
              "path": path, "steer": steer,
              # the order of the options in the file and the caller's errno at the time of the call are inputs as well
              "limits_first": draw(st.booleans()), "pre_errno": draw(st.sampled_from([0, 0, 0, 34, 34, 4, 22, 12]))}
+        if target == "path" and draw(st.sampled_from([False, True])):
+            # the directory part comes from a data source as well (file:%{env:LOGDIR}/...): an existing directory 200..3000 bytes deep --
+            # the path template has its own fixed limits, whatever datasource_message_max_length says
+            c["deep"] = draw(st.sampled_from([1, 2, 2, 5, 12, 14]))
+            c["l_ds"] = draw(st.sampled_from([255, 255, 300, 1000, 2047, c["l_ds"]]))
         if steer in ("log", "both"):
             # make the ideal total land on eff_log + delta by stretching V3 (if the format uses it) or argv
             c = stretch_to_total(draw, c, eff_ds, eff_log)
@@ -215,6 +220,13 @@ def evaluate(env, c):
         os.makedirs(pdir)
         os.chmod(pdir, 0o777)
         ini = ini.replace(out.encode() + b"/P", pdir.encode() + b"/P")
+        if c.get("deep"):
+            deep = pdir + "".join("/" + "dir%02d" % k + "x" * 194 for k in range(c["deep"]))
+            os.makedirs(deep)
+            os.chmod(deep, 0o777)
+            ini = ini.replace(b"file:" + pdir.encode() + b"/P", b"file:%{env:LOGDIR}/P")
+            c = dict(c, environ=list(c["environ"]) + [b"LOGDIR=" + deep.encode()])
+            pdir = deep
         if any(len(l) > 1022 for l in ini.split(b"\n")):
             return
     ops += [drv.op("K", "devlog", out + "/devlog.sock", 1), drv.op("W", "log", out + "/log"),
@@ -305,6 +317,8 @@ def classify(c):
         cls.append("tags>=2")
     if c.get("limits_first"):
         cls.append("limits-before-format")
+    if c.get("deep"):
+        cls.append("path-directory-from-data-source:%s" % ("<=255" if c["deep"] == 1 else ("<=1000" if c["deep"] <= 5 else ">2000")))
     if c.get("pre_errno"):
         cls.append("caller-errno-set")
     if any(b >= 0x80 for b in fmt):
